@@ -1,8 +1,8 @@
 #!/bin/bash
 # usage: confirm2.sh <prop> <n> <base> <mode: tests|diff|intree> <name> [extra cargo test args...]
 P=$1; N=$2; BASE=$3; MODE=$4; NAME=$5; shift 5; EXTRA="$@"
-W=/var/tmp/cwt; S=/var/tmp/seedwork6-$P/change$N; L=/var/tmp/confirm6-$P-$N.log
-export CARGO_TARGET_DIR=/var/tmp/cwt-target CARGO_NET_OFFLINE=true
+W=${CWT:-/var/tmp/cwt}; S=/var/tmp/seedwork6-$P/change$N; L=/var/tmp/confirm6-$P-$N.log
+export CARGO_TARGET_DIR=${CWT:-/var/tmp/cwt}-target CARGO_NET_OFFLINE=true
 [ -d $W ] || git -C /repo worktree add --detach $W $BASE >/dev/null 2>&1
 cd $W || exit 1
 git checkout -q -- . ; git clean -fdq ; git checkout -q --detach $BASE || exit 3
